@@ -499,6 +499,8 @@ def nested_round(so, parts, n_nodes, batch, deadline):
             cov["told_fail_%s" % rec["fired"][0][1]] += 1
     cov["rounds_N_quiesced"] += 1
     info["applied"] = len(ref)
+    rank = {"apply:replicas-diverge": 0, "apply:success-reported-but-not-applied-everywhere": 1}
+    viol.sort(key=lambda v: rank.get(v[0], 2))      # the state difference first: it is what the property is about
     return info, viol, cov
 
 
